@@ -294,3 +294,73 @@ theorem denoteIdFunG_congr_in (h : Cell → Cell) (insA insB outs : List Expr)
         ((List.zip (idVin insA) (idVout outs)).map (fun p => p.2.2)) ess)) <;> rfl
 
 end Einx.Denote
+
+namespace Einx.Denote
+open Einx Einx.IR List
+open Einx.Update (mapOpt mapOpt_eq_some_iff mapOpt_congr mapOpt_length)
+
+/-! ### parentheses on an input expression of `id`, concatenations included -/
+
+theorem forall₂_flatMap₂ {α α' β γ : Type} {R : β → γ → Prop} {S : α → α' → Prop} {l1 : List α} {l2 : List α'}
+    (f : α → List β) (g : α' → List γ) (h : Forall₂ S l1 l2) (hf : ∀ a b, S a b → Forall₂ R (f a) (g b)) :
+    Forall₂ R (l1.flatMap f) (l2.flatMap g) := by
+  induction h with
+  | nil => exact Forall₂.nil
+  | cons hab _ ih =>
+    simp only [List.flatMap_cons]
+    exact List.rel_append (hf _ _ hab) ih
+
+theorem forall₂_and_mem {α β : Type} {R : α → β → Prop} {l1 : List α} {l2 : List β} (h : Forall₂ R l1 l2) :
+    Forall₂ (fun a b => R a b ∧ a ∈ l1 ∧ b ∈ l2) l1 l2 := by
+  induction h with
+  | nil => exact Forall₂.nil
+  | cons hab _ ih =>
+    refine Forall₂.cons ⟨hab, List.mem_cons_self .., List.mem_cons_self ..⟩ ?_
+    exact ih.imp (fun _ _ h => ⟨h.1, List.mem_cons_of_mem _ h.2.1, List.mem_cons_of_mem _ h.2.2⟩)
+
+theorem forall₂_zipIdx_set {α : Type} (l : List α) (j : Nat) (a b : α) :
+    Forall₂ (fun x y => x.2 = y.2 ∧ (x.1 = y.1 ∨ (x.1 = a ∧ y.1 = b))) (l.set j a).zipIdx (l.set j b).zipIdx := by
+  rw [List.forall₂_iff_get]
+  refine ⟨by simp, ?_⟩
+  intro i h1 h2
+  simp only [List.get_eq_getElem, List.getElem_zipIdx, List.getElem_set, Nat.zero_add, true_and]
+  by_cases hji : j = i
+  · simp [hji]
+  · simp [hji]
+
+/-- The entries of a pair do not change when the virtual input is regrouped (its register reshaped). -/
+theorem idPairEntries_regroup_in (outs : List Expr) (P M Q : List Dim) (i : Nat) (z : List Dim × Nat) :
+    idPairEntries outs ((P ++ [Dim.flat M] ++ Q, i, viewShape (P ++ [Dim.flat M] ++ Q)), z)
+      = idPairEntries outs ((P ++ M ++ Q, i, viewShape (P ++ M ++ Q)), z) := by
+  unfold idPairEntries
+  have : idEntry (P ++ [Dim.flat M] ++ Q) (viewShape (P ++ [Dim.flat M] ++ Q)) i z.1 (shapeOf (outs.getD z.2 (Expr.list [])))
+      = idEntry (P ++ M ++ Q) (viewShape (P ++ M ++ Q)) i z.1 (shapeOf (outs.getD z.2 (Expr.list []))) := by
+    funext σ
+    simp only [idEntry, leavesL_regroup, cellAt_regroup]
+  simp only [this]
+
+theorem dimsL_append' (m : Bool) (a b : List Expr) : dimsL m (a ++ b) = dimsL m a ++ dimsL m b := by
+  induction a with
+  | nil => simp [dimsL]
+  | cons x a ih => simp [dimsL, ih]
+
+theorem views_regroup (pre mid post : List Expr) :
+    Forall₂ (fun g u => Regroup g u ∧ viewShape g = viewShape (dimsL false pre ++ [Dim.flat (dimsL false mid)] ++ dimsL false post)
+        ∧ viewShape u = viewShape (dimsL false pre ++ dimsL false mid ++ dimsL false post))
+      (views (.list (pre ++ [.flat (.list mid)] ++ post))) (views (.list (pre ++ mid ++ post))) := by
+  have hg : dims false (.list (pre ++ [.flat (.list mid)] ++ post))
+      = dimsL false pre ++ [Dim.flat (dimsL false mid)] ++ dimsL false post := by
+    simp [dims, dimsL_append', dimsL]
+  have hu : dims false (.list (pre ++ mid ++ post)) = dimsL false pre ++ dimsL false mid ++ dimsL false post := by
+    simp [dims, dimsL_append']
+  unfold views
+  simp only [hg, hu]
+  have hnc : Dim.nconcatL (dimsL false pre ++ [Dim.flat (dimsL false mid)] ++ dimsL false post)
+      = Dim.nconcatL (dimsL false pre ++ dimsL false mid ++ dimsL false post) := by
+    simp only [nconcatL_append, Dim.nconcatL, Dim.nconcat]; omega
+  rw [hnc]
+  refine (forall₂_and_mem (viewsFuel_regroup _ _ _ _)).imp ?_
+  intro g u h
+  exact ⟨h.1, viewsFuel_viewShape _ _ g h.2.1, viewsFuel_viewShape _ _ u h.2.2⟩
+
+end Einx.Denote
